@@ -24,17 +24,20 @@ func init() {
 		Level: "exploration",
 		Rule: "selector texts: (a) rendered from random segment ASTs, (b) those mutated by character insert/delete/replace over {. [ ] \" ? : a 1 - \\ space}, every prefix and suffix, (c) exhaustive: all strings of length <=5 (thorough <=6) over {. [ ] \" ? : a 1 -} and all bracket bodies .[body] of length <=5 (<=6) over {1 - : a + \" space 0}. For every accepted text s: String() must re-parse, to the same segments (exported accessors) and the same Select results on a data corpus; against the independent parser R-selparse: where it accepts s the real segments must mean the same (and Select must agree with the reference interpreter), where it rejects s, either String() != s (a malformed part was silently dropped) or the segments read through the accessors must render back to the whole text (else part of the input influences nothing). " +
 			"policies: ASTs of every statement kind rendered to IPLD and to DAG-JSON text plus structure-mutated IPLD (wrong arity, wrong kinds, unknown operators, extra elements): FromIPLD(n).ToIPLD() deep-equal to n modulo selector normalisation; constructor-built policies keep Match/PartialMatch on a data corpus after an IPLD round trip. " +
+			"Purity (also in a -race build): a sample of these calls on shared objects is repeated in reverse / shuffled order and from 16..32 goroutines at once; every outcome must equal the first one and the race detector must stay silent. " +
 			"non-trivial = accepted selector text with >=2 characters / accepted policy with >=1 statement; distinct = the text / the policy.",
 		Assumptions: []string{
 			"reference parser ref.ParseSel (100 lines, recursive descent); texts with a backslash or a quote inside a quoted field name are only checked for print -> re-parse stability",
 			"tolerated spellings (not dropped input): identity segments and the optional flag on them, runs of '?'",
 		},
-		Shards:      shards(8, 16),
-		Run:         runC14,
-		MinEvals:    floor(90000, 1500000),
-		MinDistinct: floor(4000, 50000),
+		Shards:          shards(8, 16),
+		RaceShards:      shards(1, 2),
+		RaceIsViolation: true,
+		Run:             runC14,
+		MinEvals:        floor(90000, 1500000),
+		MinDistinct:     floor(4000, 50000),
 		RequiredCells: func(string) []string {
-			return []string{"sel/accepted", "sel/rejected", "sel/model-accepts", "sel/model-rejects", "sel/undecided", "sel/normalised", "sel/mutated", "sel/exhaustive", "sel/prefix-suffix",
+			return []string{"purity/parse-print/history", "purity/parse-print/concurrent", "sel/accepted", "sel/rejected", "sel/model-accepts", "sel/model-rejects", "sel/undecided", "sel/normalised", "sel/mutated", "sel/exhaustive", "sel/prefix-suffix",
 				"pol/ipld-roundtrip", "pol/dagjson-roundtrip", "pol/mutated-accepted", "pol/mutated-rejected", "pol/constructor-roundtrip"}
 		},
 	})
@@ -412,6 +415,9 @@ func c14PolicyRoundTrip(w *mon.W, v ref.V, origin, mutation string) {
 }
 
 func runC14(w *mon.W) {
+	if purityGate(w, c14Purity) {
+		return
+	}
 	r := w.Rng
 	corpus := newCorpus(r, 12)
 
